@@ -198,6 +198,17 @@ class PyVC(ExprMixin, CallMixin, StmtMixin, Engine):
                     for x in facts:
                         s2.assume(x)
                     self.oblige(s2, "post", label, goal, note=text)
+                # `raises X when W` is an "iff": callers assume not W after a normal return, so a normal return
+                # under W must be impossible
+                for r in c.raises:
+                    if r.when is None:
+                        continue
+                    w, facts = self.spec_formula(r.when, self.entry_state, env0)
+                    s2 = rs.copy()
+                    for x in facts:
+                        s2.assume(x)
+                    self.oblige(s2, "post", "must-raise.%s" % r.label, z3.Not(w),
+                                note="no normal return when `%s` (declared to raise %s)" % (r.when, r.exc))
                 self.check_frame(self.entry_state, rs, c.modifies, env0, self.entry_state,
                                  self.entry_state.alloc, "frame")
                 info["covers"].append(("return-reachable", list(rs.pc)))
